@@ -10,7 +10,7 @@ import (
 	"strings"
 )
 
-var c09TagPool = []string{"id", "name", "a", "b", "role", "x-id", "q", "note", "owner", "admin", "x", "y", "token", "page"}
+var c09TagPool = []string{"id", "name", "a", "b", "role", "x-id", "q", "note", "owner", "admin", "x", "y", "token", "page", "ids[]", "tags[]"}
 
 type c09GenLeaf struct {
 	Tags map[string]string
@@ -49,12 +49,14 @@ func c09GenFields(r *rand.Rand, depth int, prefix string, leaves *[]c09GenLeaf) 
 			f.Kind = "struct"
 		case k < 94:
 			f.Kind = "*struct"
-		case k < 96:
+		case k < 95:
 			f.Kind = "map"
-		case k < 97:
+		case k < 96:
 			f.Kind = "iface"
-		default:
+		case k < 98:
 			f.Kind = "unm"
+		default:
+			f.Kind = []string{"multi", "multi", "[]multi", "file*", "[]file*", "[]file", "file"}[r.Intn(7)]
 		}
 		if (f.Kind == "struct" || f.Kind == "*struct") && depth >= 3 {
 			f.Kind = "string"
@@ -82,6 +84,11 @@ func c09GenFields(r *rand.Rand, depth int, prefix string, leaves *[]c09GenLeaf) 
 					}
 					f.Tags[s] = t
 				}
+			}
+		}
+		if strings.Contains(f.Kind, "file") && r.Intn(4) != 0 {
+			if f.Tags["form"] == "" {
+				f.Tags["form"] = c09TagPool[r.Intn(len(c09TagPool))]
 			}
 		}
 		if isStruct {
@@ -137,7 +144,7 @@ func c09ValueFor(r *rand.Rand, kind string, pBad int) string {
 			return []string{"yes", "2", "TRue"}[r.Intn(3)]
 		}
 		return []string{"true", "false", "1", "0", "T", "f"}[r.Intn(6)]
-	case "unm":
+	case "unm", "multi":
 		if bad {
 			return "!no"
 		}
@@ -150,7 +157,7 @@ func c09GenData(r *rand.Rand, src string, leaves []c09GenLeaf, names []string, h
 	var out []c09KV
 	add := func(k, kind string) {
 		nv := 1
-		if !single && (strings.HasPrefix(kind, "[]") || r.Intn(8) == 0) {
+		if !single && (strings.HasPrefix(kind, "[]") || kind == "multi" || r.Intn(8) == 0) {
 			nv = 1 + r.Intn(3)
 		}
 		kv := c09KV{K: k}
@@ -172,32 +179,38 @@ func c09GenData(r *rand.Rand, src string, leaves []c09GenLeaf, names []string, h
 		}
 		lf := leaves[r.Intn(len(leaves))]
 		switch k := r.Intn(100); {
-		case k < 45: // a tag of this source
+		case k < 40: // a tag of this source
 			if t := lf.Tags[src]; t != "" {
 				add(t, lf.Kind)
 			} else {
 				add(strings.ToLower(lf.Name), lf.Kind) // aimed at an untagged field
 			}
-		case k < 60: // another source's tag sent through this source
+		case k < 52: // another source's tag sent through this source
 			other := c09Sources[r.Intn(len(c09Sources))]
 			if t := lf.Tags[other]; t != "" {
 				add(t, lf.Kind)
 			}
-		case k < 75: // the Go field name / json name
+		case k < 64: // the Go field name / json name
 			if r.Intn(2) == 0 {
 				add(lf.Name, lf.Kind)
 			} else {
 				add(strings.ToLower(lf.Name), lf.Kind)
 			}
-		case k < 88: // case variant of a tag
+		case k < 76: // case variant of a tag
 			if t := lf.Tags[src]; t != "" {
 				add(c09CaseVariant(r, t), lf.Kind)
 			} else if len(names) > 0 {
 				add(c09CaseVariant(r, names[r.Intn(len(names))]), "string")
 			}
-		case k < 92: // unicode look-alike of a tag (K = Kelvin sign folds to k, ſ folds to s)
+		case k < 80: // unicode look-alike of a tag (K = Kelvin sign folds to k, ſ folds to s)
 			if t := lf.Tags[src]; t != "" {
 				add(strings.NewReplacer("k", "K", "s", "ſ").Replace(t), lf.Kind)
+			}
+		case k < 94: // near miss: the tag plus an affix (`role[]`, `ROLE[]`, `role.`, `x-role` …)
+			if t := lf.Tags[src]; t != "" {
+				add(c09NearMiss(r, t), lf.Kind)
+			} else if len(names) > 0 {
+				add(c09NearMiss(r, names[r.Intn(len(names))]), "string")
 			}
 		default:
 			add([]string{"junk", "IsAdmin", "Role", "admin", "nested.owner", "Nested.Owner", "F0.F0", "f0[f0]"}[r.Intn(8)], "string")
@@ -206,12 +219,50 @@ func c09GenData(r *rand.Rand, src string, leaves []c09GenLeaf, names []string, h
 	return out
 }
 
+// keys that are NOT equal to the tag under case folding but look like it to a lenient matcher:
+// array / object spellings of other frameworks, separators, whitespace, plural, prefixes
+var c09Affixes = []string{"[]", "[0]", "[1]", "[ ]", "[][]", ".", ".0", " ", "-", "_", "s", "%5B%5D", "[", "]", ":", "+"}
+var c09Prefixes = []string{"[]", "x-", "_", " ", ".", "data[", "the"}
+
+func c09NearMissAll(t string) []string {
+	var out []string
+	for _, a := range c09Affixes {
+		out = append(out, t+a, strings.ToUpper(t)+a, t+strings.ToUpper(a))
+	}
+	for _, a := range c09Prefixes {
+		out = append(out, a+t)
+	}
+	out = append(out, "data["+t+"]", t+t, t+"="+t)
+	if len(t) > 1 {
+		out = append(out, t[:len(t)-1], t[1:])
+	}
+	var uniq []string
+	seen := map[string]bool{}
+	for _, k := range out {
+		if !seen[k] && !strings.EqualFold(k, t) && k != "" {
+			seen[k] = true
+			uniq = append(uniq, k)
+		}
+	}
+	return uniq
+}
+
+func c09NearMiss(r *rand.Rand, t string) string {
+	l := c09NearMissAll(t)
+	if len(l) == 0 {
+		return t + "[]"
+	}
+	return l[r.Intn(len(l))]
+}
+
 var c09CTypes = []string{
 	"application/json", "application/json; charset=utf-8", "application/json;charset=UTF-8", " application/json", "application/json ",
 	"\tapplication/json\t;x=y", "Application/JSON", "application/jsonx", "application/json+ld", "text/json", "application/json,text/plain",
 	";application/json", "application/xml", "text/xml", "text/xml; charset=utf-8", "application/xml ;q=1",
 	"application/x-www-form-urlencoded", "application/x-www-form-urlencoded; charset=UTF-8", "APPLICATION/X-WWW-FORM-URLENCODED",
 	"application/x-www-form-urlencoded ", "text/plain", "", "application/octet-stream", "application/msgpack", "multipart/mixed", "application",
+	"multipart/form-data", "multipart/form-data; boundary=other", "Multipart/Form-Data; boundary=c09boundary", " multipart/form-data ;boundary=c09boundary",
+	"multipart/form-data; boundary", "multipart/form-dataX; boundary=c09boundary",
 }
 
 const c09MultipartCT = "multipart/form-data; boundary=c09boundary"
@@ -303,6 +354,8 @@ func c09GenCase(r *rand.Rand) *c09Case {
 		c.Op = "query"
 	case k < 37:
 		c.Op = "header"
+	case k < 45:
+		c.Op = "body"
 	default:
 		c.Op = "bind"
 	}
@@ -315,11 +368,17 @@ func c09GenCase(r *rand.Rand) *c09Case {
 		c.Query = append(c.Query, c09KV{K: "id", V: []string{"1"}})
 		c.Params = append(c.Params, c09KV{K: "id", V: []string{"2"}})
 	}
-	if c.Op != "bind" {
+	if c.Op != "bind" && c.Op != "body" {
 		return c
 	}
 	c.Method = []string{"GET", "GET", "POST", "POST", "PUT", "PATCH", "DELETE", "HEAD", "OPTIONS", "get"}[r.Intn(10)]
-	switch k := r.Intn(100); {
+	bk := r.Intn(100)
+	for _, l := range leaves {
+		if strings.Contains(l.Kind, "file") && r.Intn(2) == 0 {
+			bk = 50 // destinations with file fields: mostly multipart bodies
+		}
+	}
+	switch k := bk; {
 	case k < 18:
 		c.BodyKind = "none"
 		if r.Intn(2) == 0 {
@@ -338,6 +397,13 @@ func c09GenCase(r *rand.Rand) *c09Case {
 		c.CType = c09MultipartCT
 		if r.Intn(6) == 0 {
 			c.CType = c09CTypes[r.Intn(len(c09CTypes))]
+		}
+		c.Files = c09GenFiles(r, leaves, names)
+		switch r.Intn(14) { // damaged bodies: another boundary inside, cut short
+		case 0:
+			c.Boundary = "other"
+		case 1:
+			c.Truncate = 1 + r.Intn(40)
 		}
 	case k < 78:
 		c.BodyKind = "raw"
@@ -358,6 +424,12 @@ func c09GenCase(r *rand.Rand) *c09Case {
 		c.Body = []string{"hello", "id=5&name=x", "{}", "\x00\x01", "a=%zz"}[r.Intn(5)]
 		c.CType = c09CTypes[r.Intn(len(c09CTypes))]
 	}
+	if r.Intn(14) == 0 { // a malformed pair in the URL query
+		c.RawTail = []string{"&bad=%zz", "&%zz=1", "&a=%", ";a=1", "&x=%G1&id=5", "&name=%"}[r.Intn(6)]
+		if len(c.Query) == 0 {
+			c.RawTail = c.RawTail[1:]
+		}
+	}
 	switch r.Intn(12) {
 	case 0:
 		c.LenMode = "unknown"
@@ -365,6 +437,62 @@ func c09GenCase(r *rand.Rand) *c09Case {
 		c.LenMode = "zero"
 	}
 	return c
+}
+
+// uploaded files: aimed at form tags of file fields, at form tags of ordinary fields, at tags of
+// other sources, at case variants and near misses of form tags (files are matched exactly)
+func c09GenFiles(r *rand.Rand, leaves []c09GenLeaf, names []string) []c09KV {
+	var out []c09KV
+	add := func(k string) {
+		kv := c09KV{K: k}
+		for i := 0; i < 1+r.Intn(3); i++ {
+			kv.V = append(kv.V, fmt.Sprintf("f%d.txt", r.Intn(10)))
+		}
+		out = append(out, kv)
+	}
+	var fileLeaves []c09GenLeaf
+	for _, l := range leaves {
+		if strings.Contains(l.Kind, "file") {
+			fileLeaves = append(fileLeaves, l)
+		}
+	}
+	n := r.Intn(3)
+	if len(fileLeaves) > 0 {
+		n = 1 + r.Intn(3)
+	} else if r.Intn(3) != 0 {
+		return nil
+	}
+	for i := 0; i < n; i++ {
+		pool := leaves
+		if len(fileLeaves) > 0 && r.Intn(4) != 0 {
+			pool = fileLeaves
+		}
+		if len(pool) == 0 {
+			add("upload")
+			continue
+		}
+		lf := pool[r.Intn(len(pool))]
+		t := lf.Tags["form"]
+		switch k := r.Intn(10); {
+		case k < 5 && t != "":
+			add(t)
+		case k < 6 && t != "":
+			add(c09CaseVariant(r, t))
+		case k < 7 && t != "":
+			add(c09NearMiss(r, t))
+		case k < 8:
+			if o := lf.Tags[c09Sources[r.Intn(len(c09Sources))]]; o != "" {
+				add(o)
+			} else {
+				add(lf.Name)
+			}
+		case k < 9:
+			add(strings.ToLower(lf.Name))
+		default:
+			add("upload")
+		}
+	}
+	return out
 }
 
 // leaves of the hand catalogue (tags and kinds the generator aims keys at)
@@ -388,6 +516,14 @@ func c09CatLeaves(name string) []c09GenLeaf {
 		return []c09GenLeaf{{all("m"), "string", "M"}, {map[string]string{}, "string", "N"}, {map[string]string{"query": "i", "form": "i"}, "string", "I"}, {map[string]string{}, "string", "J"},
 			{map[string]string{"query": "s", "form": "s", "param": "s"}, "string", "S"}, {map[string]string{"query": "p", "form": "p"}, "string", "P"}, {map[string]string{}, "string", "Q"},
 			{all("a"), "string", "A"}, {all("id"), "string", "ID"}}
+	case "files":
+		return []c09GenLeaf{{map[string]string{"form": "doc", "query": "doc"}, "file*", "Doc"}, {map[string]string{"form": "docs"}, "[]file*", "Docs"},
+			{map[string]string{"form": "vals", "param": "vals"}, "[]file", "Vals"}, {map[string]string{}, "file", "Plain"}, {map[string]string{}, "file*", "Hidden"},
+			{map[string]string{"query": "qonly"}, "file*", "QOnly"}, {map[string]string{"form": "name", "query": "name"}, "string", "Name"},
+			{all("m"), "multi", "M"}, {map[string]string{}, "multi", "N"}, {map[string]string{"form": "after"}, "string", "After"}}
+	case "file-plain":
+		return []c09GenLeaf{{map[string]string{"form": "before"}, "string", "Before"}, {map[string]string{"form": "f", "query": "f"}, "file", "F"},
+			{map[string]string{"form": "after", "query": "after"}, "string", "After"}}
 	case "mass":
 		return []c09GenLeaf{{map[string]string{"param": "id"}, "int", "ID"}, {map[string]string{"query": "name", "form": "name"}, "string", "Name"}, {map[string]string{}, "bool", "IsAdmin"},
 			{map[string]string{}, "string", "Role"}, {map[string]string{"header": "x-balance"}, "int", "Balance"}, {map[string]string{}, "string", "Owner"},
@@ -401,9 +537,114 @@ func c09Gen(r *rand.Rand, tier string) []any {
 	if tier == "thorough" {
 		n = 120000
 	}
-	var out []any
+	out := c09NearMissBlock(r)
+	out = append(out, c09FilesBlock(r)...)
 	for i := 0; i < n; i++ {
 		out = append(out, c09GenCase(r))
+	}
+	return out
+}
+
+// deterministic block for multipart uploads: the two file catalogue types x file names under the
+// exact form tags, case variants, near misses, tags of other sources and Go field names x 1-3 files
+// per key x texts under the same keys x BindBody / Bind x methods x initial values
+func c09FilesBlock(r *rand.Rand) []any {
+	var out []any
+	fileKeys := []string{"doc", "docs", "vals", "DOC", "Docs", "vals[]", "docs[0]", "qonly", "hidden", "Hidden", "plain", "Plain", "name", "m", "f", "F", "upload"}
+	names := func(n int) []string { return []string{"a.txt", "b.png", "c"}[:n] }
+	for _, cat := range []string{"files", "file-plain"} {
+		for i, k := range fileKeys {
+			for n := 1; n <= 3; n++ {
+				for variant := 0; variant < 4; variant++ {
+					c := &c09Case{Dest: "cat:" + cat, InitSeed: r.Int63(), Op: []string{"bind", "body"}[(i+n+variant)%2],
+						Method: []string{"POST", "PUT", "GET", "PATCH"}[(i+variant)%4], BodyKind: "multipart", CType: c09MultipartCT,
+						Files: []c09KV{{K: k, V: names(n)}}}
+					switch variant {
+					case 1: // ordinary fields next to the upload
+						c.Form = []c09KV{{K: "name", V: []string{"n1"}}, {K: "after", V: []string{"a1"}}, {K: "before", V: []string{"b1"}}, {K: "m", V: []string{"x", "y"}}}
+					case 2: // a text under the same key as the upload, and a second upload
+						c.Form = []c09KV{{K: k, V: []string{"text"}}}
+						c.Files = append(c.Files, c09KV{K: "docs", V: names(2)})
+					case 3: // a text for another file field, query string present
+						c.Form = []c09KV{{K: []string{"doc", "docs", "vals", "f"}[(i+n)%4], V: []string{"text"}}}
+						c.Query = []c09KV{{K: "name", V: []string{"q"}}, {K: "doc", V: []string{"qdoc"}}}
+					}
+					out = append(out, c)
+				}
+			}
+		}
+	}
+	return out
+}
+
+// deterministic block: every tagged leaf of every catalogue type x every source that carries its
+// tag x every near-miss spelling of the tag (one key per request, the exact key absent): the field
+// must stay as it was and the request must succeed.  Plus map destinations filled by two and three
+// sources in one Bind, with and without entries of their own.
+func c09NearMissBlock(r *rand.Rand) []any {
+	var out []any
+	for _, name := range c09CatNames {
+		for _, lf := range c09CatLeaves(name) {
+			for _, src := range c09Sources {
+				t := lf.Tags[src]
+				if t == "" {
+					continue
+				}
+				all := c09NearMissAll(t)
+				// the first three spellings (`tag[]`, `TAG[]`, `tag[0]`) always, the others sampled
+				pick := append([]string(nil), all[:3]...)
+				for i := 0; i < 3; i++ {
+					pick = append(pick, all[r.Intn(len(all))])
+				}
+				for _, key := range pick {
+					kv := []c09KV{{K: key, V: []string{c09ValueFor(r, lf.Kind, 30)}}}
+					c := &c09Case{Dest: "cat:" + name, InitSeed: r.Int63()}
+					switch src {
+					case "param":
+						c.Op, c.Params = "param", kv
+					case "query":
+						c.Op, c.Query = "query", kv
+						if r.Intn(2) == 0 {
+							c.Op, c.Method = "bind", []string{"GET", "DELETE", "HEAD"}[r.Intn(3)]
+						}
+					case "header":
+						c.Op, c.Header = "header", kv
+					default:
+						c.Op, c.Method, c.Form = []string{"bind", "body"}[r.Intn(2)], []string{"POST", "PUT", "PATCH"}[r.Intn(3)], kv
+						c.BodyKind, c.CType = "form", "application/x-www-form-urlencoded"
+						if r.Intn(3) == 0 {
+							c.BodyKind, c.CType = "multipart", c09MultipartCT
+						}
+					}
+					if src == "form" && strings.Contains(lf.Kind, "file") && r.Intn(2) == 0 {
+						// the near-miss key names an uploaded FILE
+						c.BodyKind, c.CType, c.Form = "multipart", c09MultipartCT, nil
+						c.Files = []c09KV{{K: key, V: []string{"up.txt"}}}
+					}
+					out = append(out, c)
+				}
+			}
+		}
+	}
+	for _, dest := range []string{"map:str", "map:iface", "map:strs"} {
+		for seed := int64(1); seed <= 4; seed++ {
+			for _, method := range []string{"GET", "DELETE", "POST", "PUT"} {
+				for _, body := range []string{"none", "form", "multipart"} {
+					c := &c09Case{Dest: dest, InitSeed: seed, Op: "bind", Method: method, BodyKind: body,
+						Params: []c09KV{{K: "id", V: []string{"p1"}}, {K: "only-path", V: []string{"p2"}}},
+						Query:  []c09KV{{K: "id", V: []string{"q1", "q1b"}}, {K: "only-query", V: []string{"q2"}}}}
+					switch body {
+					case "form":
+						c.CType = "application/x-www-form-urlencoded"
+						c.Form = []c09KV{{K: "id", V: []string{"f1"}}, {K: "only-form", V: []string{"f2", "f3"}}}
+					case "multipart":
+						c.CType = c09MultipartCT
+						c.Form = []c09KV{{K: "id", V: []string{"m1"}}, {K: "only-form", V: []string{"m2"}}}
+					}
+					out = append(out, c)
+				}
+			}
+		}
 	}
 	return out
 }
@@ -489,14 +730,29 @@ func c09Shrink(ci any) []any {
 			out = append(out, &d)
 		}
 	}
+	for _, l := range c09DropKV(c.Files) {
+		d := *c
+		d.Files = l
+		out = append(out, &d)
+	}
+	if c.Boundary != "" || c.Truncate != 0 {
+		d := *c
+		d.Boundary, d.Truncate = "", 0
+		out = append(out, &d)
+	}
 	if c.LenMode != "" {
 		d := *c
 		d.LenMode = ""
 		out = append(out, &d)
 	}
-	if c.Op == "bind" && c.BodyKind != "none" && c.BodyKind != "" {
+	if c.RawTail != "" {
 		d := *c
-		d.BodyKind, d.Body, d.Form = "none", "", nil
+		d.RawTail = ""
+		out = append(out, &d)
+	}
+	if (c.Op == "bind" || c.Op == "body") && c.BodyKind != "none" && c.BodyKind != "" {
+		d := *c
+		d.BodyKind, d.Body, d.Form, d.Files = "none", "", nil, nil
 		out = append(out, &d)
 	}
 	if c.InitSeed != 1 {
@@ -521,7 +777,7 @@ func c09Mutate(r *rand.Rand, ci any) []any {
 	perturb := func(l []c09KV) [][]c09KV {
 		var res [][]c09KV
 		for i, kv := range l {
-			for _, k := range []string{kv.K + "x", strings.ToUpper(kv.K), strings.ToLower(kv.K), "x" + kv.K} {
+			for _, k := range []string{kv.K + "x", strings.ToUpper(kv.K), strings.ToLower(kv.K), "x" + kv.K, kv.K + "[]", strings.TrimSuffix(kv.K, "[]"), kv.K + ".", "_" + kv.K} {
 				if k == kv.K {
 					continue
 				}
@@ -550,12 +806,17 @@ func c09Mutate(r *rand.Rand, ci any) []any {
 		d.Form = l
 		out = append(out, &d)
 	}
+	for _, l := range perturb(c.Files) {
+		d := *c
+		d.Files = l
+		out = append(out, &d)
+	}
 	for _, l := range perturb(c.Header) {
 		d := *c
 		d.Header = l
 		out = append(out, &d)
 	}
-	if c.Op == "bind" {
+	if c.Op == "bind" || c.Op == "body" {
 		for k := 0; k < 4; k++ {
 			d := *c
 			d.CType = c09CTypes[r.Intn(len(c09CTypes))]
